@@ -729,3 +729,91 @@ func (L strLib) evalStr(s *Str, m smt.Model, memo map[int]uint64) string {
 	}
 	return string(buf)
 }
+
+// htmlShape runs a simplified HTML5 tokenizer state machine over the slots
+// and returns (number of tag opens, number of double quotes inside tags) as
+// BV16 terms. States: text, after '<', in tag, in "..." value, in '...' value.
+func (L strLib) htmlShape(s *Str) (tagOpens, quotes *smt.Term) {
+	F := L.F
+	text, lt, tag, dq, sq := F.True, F.False, F.False, F.False, F.False
+	tagOpens, quotes = F.BV(0, posW), F.BV(0, posW)
+	one, zero := F.BV(1, posW), F.BV(0, posW)
+	isC := func(b *smt.Term, c byte) *smt.Term { return F.Eq(b, F.BV(uint64(c), 8)) }
+	for _, sl := range s.s {
+		b := sl.b
+		isLT := isC(b, '<')
+		isGT := isC(b, '>')
+		isDQ := isC(b, '"')
+		isSQ := isC(b, '\'')
+		letter := F.Or(
+			F.And(F.Ule(F.BV('a', 8), b), F.Ule(b, F.BV('z', 8))),
+			F.And(F.Ule(F.BV('A', 8), b), F.Ule(b, F.BV('Z', 8))),
+			isC(b, '/'), isC(b, '!'), isC(b, '?'))
+		open := F.And(lt, letter)
+		nText := F.Or(F.And(text, F.Not(isLT)), F.And(lt, F.Not(letter), F.Not(isLT)), F.And(tag, isGT))
+		nLT := F.Or(F.And(text, isLT), F.And(lt, isLT))
+		nTag := F.Or(open, F.And(tag, F.Not(isGT), F.Not(isDQ), F.Not(isSQ)), F.And(dq, isDQ), F.And(sq, isSQ))
+		nDQ := F.Or(F.And(tag, isDQ), F.And(dq, F.Not(isDQ)))
+		nSQ := F.Or(F.And(tag, isSQ), F.And(sq, F.Not(isSQ)))
+		q := F.Or(F.And(tag, isDQ), F.And(dq, isDQ))
+		tagOpens = F.Add(tagOpens, F.Ite(F.And(sl.g, open), one, zero))
+		quotes = F.Add(quotes, F.Ite(F.And(sl.g, q), one, zero))
+		text = F.Ite(sl.g, nText, text)
+		lt = F.Ite(sl.g, nLT, lt)
+		tag = F.Ite(sl.g, nTag, tag)
+		dq = F.Ite(sl.g, nDQ, dq)
+		sq = F.Ite(sl.g, nSQ, sq)
+	}
+	return
+}
+
+// htmlShapeNative is the same machine on a concrete string (used by tests).
+func htmlShapeNative(s string) (tagOpens, quotes int) {
+	const (
+		text = iota
+		lt
+		tag
+		dq
+		sq
+	)
+	st := text
+	for i := 0; i < len(s); i++ {
+		c := s[i]
+		letter := c >= 'a' && c <= 'z' || c >= 'A' && c <= 'Z' || c == '/' || c == '!' || c == '?'
+		switch st {
+		case text:
+			if c == '<' {
+				st = lt
+			}
+		case lt:
+			switch {
+			case letter:
+				st = tag
+				tagOpens++
+			case c == '<':
+			default:
+				st = text
+			}
+		case tag:
+			switch c {
+			case '>':
+				st = text
+			case '"':
+				st = dq
+				quotes++
+			case '\'':
+				st = sq
+			}
+		case dq:
+			if c == '"' {
+				st = tag
+				quotes++
+			}
+		case sq:
+			if c == '\'' {
+				st = tag
+			}
+		}
+	}
+	return
+}
